@@ -191,7 +191,7 @@ def nontrivial(tr):
     for s in tr['steps']:
         if s['a'] in ('Byz', 'Crash', 'Restart'):
             return True
-        nodes = s['post'].get('node')
+        nodes = (s.get('post') or {}).get('node') or []
         it = nodes.values() if isinstance(nodes, dict) else nodes
         for nd in it:
             if not isinstance(nd, dict):
